@@ -34,12 +34,14 @@ Spec == Init /\ [][Next]_vars
 NothingLost == \A c \in Counters : published[c] + snap[c] + cur[c] = total[c]
 
 \* trace mode: one record per (run, counter): [before, during, after (increments made), pub (values published by the
-\* reports, in order), left (value in the current interval at the end), nreports]
+\* reports, in order), first, left (value in the current interval at the end), nreports]
 CaseFlags ==
   LET t == Cases[tid]
       sumpub == IF Len(t.pub) = 0 THEN 0 ELSE LET S[i \in 0..Len(t.pub)] == IF i = 0 THEN 0 ELSE S[i - 1] + t.pub[i] IN S[Len(t.pub)]
   IN (IF sumpub + t.left # t.before + t.during + t.after THEN {"counts-lost"} ELSE {})
-     \cup (IF Len(t.pub) >= 1 /\ t.pub[1] # t.before THEN {"first-report"} ELSE {})
+     \* t.first: what the FIRST report published for the counter (-1: it did not mention it - the relay's report lists only
+     \* the counters that exist): everything counted before it began, and nothing that had not been counted yet
+     \cup (IF t.first >= 0 /\ (t.first < t.before \/ t.first > t.before + t.during) THEN {"first-report"} ELSE {})
 Report == IF Mode = "trace"
             THEN /\ \A f \in CaseFlags : PrintT(<<"F", tid, f>>)
                  /\ PrintT(<<"DONE", tid>>)
